@@ -73,6 +73,9 @@ SYSTEMS = [
  ("matrix-valued: different diagonal entries, two subspaces", [('b', 'a')],
   lambda d: sympy.Matrix([[2 * Dagger(d['a']) * d['a'], 0], [0, 2 * Dagger(d['a']) * d['a'] + Q(7, 3)]]),
   lambda d: sympy.Matrix([[d['a'] + Dagger(d['a']), 1 + Dagger(d['a'])], [1 + d['a'], d['a'] + Dagger(d['a'])]])),
+ ("charge qubit: a ladder mode whose number enters quadratically (charging energy with an offset charge), a spectator spin", [('l', 'm'), ('s', 's')],
+  lambda d: (NumberOperator(d['m']) - Q(1, 3))**2 + Q(3, 2) * Dagger(d['s']) * d['s'],
+  lambda d: (d['m'] + Dagger(d['m'])) * (1 + Dagger(d['s']) * d['s']) + Q(1, 3) * pauli.SigmaX('s')),
 ]
 
 PRIMES = [2, 3, 5, 7, 11, 13]
